@@ -42,6 +42,68 @@ int main(int argc, char **argv)
         if (!expired && !rc_on(in[RC_HAVE_REQUEST]) && !revalidate_always(in) && code != FRESH_EXPIRES) RP_FAIL("unexpired entry not FRESH_EXPIRES");
         RP_OK("postconditions hold on this input");
     }
+    const std::string mode = argv[1];
+    if (mode == "check_all" || mode == "cachable") {
+        long in[RC_COUNT] = {0};
+        auto v = c.arr("in");
+        for (size_t i = 0; i < v.size() && i < RC_COUNT; i++) in[i] = (long)v[i];
+        double pct = c.has("pct") ? strtod(c.kv["pct"].c_str(), nullptr) : 0.2;
+        if (!(pct >= 0.0) || pct > PCTMAX) pct = 0.2;
+        if (mode == "cachable") { in[RC_HAVE_REQUEST] = 0; in[RC_DELTA] = in[RC_CFG_MIN_EXPIRY]; }
+        if (in[RC_NOW] < 0 || in[RC_DELTA] < 0 || judged_at(in) > TMAX || in[RC_TIMESTAMP] < -1 || in[RC_LASTMOD] < -1 ||
+                in[RC_PAT_MIN] < 0 || in[RC_PAT_MAX] < 0 || in[RC_WHICH_RULE] < 0 || in[RC_WHICH_RULE] > 2 ||
+                (rc_on(in[RC_REQ_MINFRESH_SET]) && in[RC_REQ_MINFRESH] < 0)) RP_OK("outside the target's domain");
+        const int rule = spec_check_rule(in, pct);
+        const long age = spec_age(in);
+        const double epct = r_pct(in, pct);
+        // native oracle: the staleness every rule owes, the L-M product included (one double multiplication)
+        long st = spec_fresh(in[RC_EXPIRES], in[RC_TIMESTAMP], in[RC_LASTMOD], judged_at(in), age, r_min(in), epct, r_max(in)) ? -1 :
+                  spec_staleness(in[RC_EXPIRES], in[RC_TIMESTAMP], in[RC_LASTMOD], judged_at(in), age, r_min(in), epct, r_max(in));
+        if (mode == "cachable") {
+            int r = rs_refreshIsCachable(in, pct);
+            int sfail, snocache;
+            const int reason = spec_check(in, rule, st, &sfail, &snocache);
+            const long lm = in[RC_LASTMOD] < 0 ? in[RC_TIMESTAMP] : in[RC_LASTMOD];
+            const int refreshable = lm >= 0 && (!rc_on(in[RC_HAVE_MEM]) || in[RC_BASE_CONTENT_LENGTH] != 0);
+            printf("now=%ld min_expiry=%ld expires=%ld timestamp=%ld lastmod=%ld mem=%d content_length=%ld rule=%d staleness=%ld reason=%d -> cachable=%d\n",
+                   in[RC_NOW], in[RC_DELTA], in[RC_EXPIRES], in[RC_TIMESTAMP], in[RC_LASTMOD], rc_on(in[RC_HAVE_MEM]), in[RC_BASE_CONTENT_LENGTH], rule, st, reason, r);
+            if (fresh_code(reason) && r != 1) RP_FAIL("entry fresh in minimum_expiry_time seconds is not cachable");
+            if (stale_code(reason) && r != refreshable) RP_FAIL("stale-soon entry: cachable=%d although refreshable=%d", r, refreshable);
+            if (g_rc_store_total != 1 || rs_storeCount(reason) != 1) RP_FAIL("verdict not counted once");
+            RP_OK("postconditions hold on this input");
+        }
+        int code = rs_refreshCheck(in, pct);
+        const int ignore_reload = r_flag(in, RC_PAT_IGNORE_RELOAD);
+        printf("now=%ld delta=%ld expires=%ld timestamp=%ld lastmod=%ld judged_at=%ld age=%ld rule=%d staleness=%ld entry_flags=0x%lx request=%d max-age=%s%ld -> code %d\n",
+               in[RC_NOW], in[RC_DELTA], in[RC_EXPIRES], in[RC_TIMESTAMP], in[RC_LASTMOD], judged_at(in), age, rule, st, in[RC_ENTRY_FLAGS] & 0xFFFF,
+               rc_on(in[RC_HAVE_REQUEST]), rc_on(in[RC_REQ_MAXAGE_SET]) ? "" : "unset/", in[RC_REQ_MAXAGE], code);
+        // property-level oracle only (C12's two all-path sentences); the pinned: ladder is deliberately not re-checked here
+        if (!stale_code(code) && !fresh_code(code)) RP_FAIL("unknown code");
+        if (req_cc_active(in) && rc_on(in[RC_REQ_MAXAGE_SET]) && in[RC_REQ_MAXAGE] == 0 && !reply_immutable(in) && !ignore_reload && !stale_code(code)) RP_FAIL("request max-age=0 served as fresh");
+        if (rc_on(in[RC_HAVE_REQUEST]) && !rc_on(in[RC_REQ_IGNORE_CC]) && rc_on(in[RC_REQ_NOCACHE_HACK]) && !ignore_reload && !stale_code(code)) RP_FAIL("client reload served as fresh");
+        if (revalidate_always(in) && code != STALE_MUST_REVALIDATE) RP_FAIL("ENTRY_REVALIDATE_ALWAYS not honoured");
+        if (must_revalidate_stale(in) && st > -1 && code != STALE_MUST_REVALIDATE) RP_FAIL("stale must-revalidate entry not answered STALE_MUST_REVALIDATE");
+        if (must_revalidate_stale(in) && !stale_code(code) && !genuinely_fresh_code(code)) RP_FAIL("must-revalidate entry released on a client/config excuse");
+        if (code == STALE_MUST_REVALIDATE && rc_on(in[RC_HAVE_REQUEST]) && !g_rc_fail_on_validation) RP_FAIL("failOnValidationError not set");
+        RP_OK("property-level postconditions hold on this input");
+    }
+    if (mode == "limits" || mode == "first_dot") {
+        int n = (int)c.num("n"), match_bits = (int)c.num("match_bits") & 15, dot_bits = (int)c.num("dot_bits") & 15;
+        if (n < 0 || n > RL_MAX) RP_OK("outside the target's domain");
+        unsigned long t0[RL_MAX] = {0}, c0[RL_MAX] = {0};
+        const int bits = mode == "limits" ? match_bits : dot_bits;
+        int want = -1;
+        for (int i = 0; i < n; ++i) if ((bits >> i) & 1) { want = i; break; }
+        int r = mode == "limits" ? rs_refreshLimits(n, match_bits, dot_bits, t0, c0) : rs_refreshFirstDotRule(n, match_bits, dot_bits, t0, c0);
+        printf("rules=%d match=0x%x dot=0x%x -> rule %d (want %d)\n", n, match_bits, dot_bits, r, want);
+        if (r != want) RP_FAIL("not the first matching rule in configuration order");
+        for (int i = 0; i < RL_MAX; ++i) {
+            if (mode == "limits" && g_rl_tests[i] != (unsigned long)(i < n && (want < 0 || i <= want))) RP_FAIL("matchTests of rule %d", i);
+            if (mode == "limits" && g_rl_count[i] != (unsigned long)(i == want)) RP_FAIL("matchCount of rule %d", i);
+            if (mode == "first_dot" && (g_rl_tests[i] || g_rl_count[i])) RP_FAIL("statistics touched");
+        }
+        RP_OK("postconditions hold on this input");
+    }
     long expires = c.num("expires"), timestamp = c.num("timestamp"), lastmod = c.num("lastmod"), check_time = c.num("check_time"),
          age = c.num("age"), rmin = c.num("rmin"), rmax = c.num("rmax");
     int sf_in = (int)c.num("sf_in") & 15;
